@@ -17,7 +17,7 @@ RULE = (
     "non-unique, floats} x formulas whose factors propagate nulls row-wise (columns, C(col[, contrast]), I()/{} python "
     "expressions, np.exp, raw poly, hashed on a null-free column) x na_action {drop, raise, ignore} x caller drop sets "
     "x entry points {model_matrix, Formula.get_model_matrix, ModelSpec.get_model_matrix with and without option "
-    "overrides, two-sided 'y ~ ...'} x outputs x rank reduction. Oracle: null positions are computed from the data and "
+    "overrides, two-sided 'y ~ ...', a hand-assembled ModelSpecs mixing an earlier part with a fresh one} x outputs x rank reduction. Oracle: null positions are computed from the data and "
     "the generator's knowledge of which columns each factor reads; drop: output == R-encode(frame.iloc[kept]) with "
     "kept = positions not in (caller set U nulls) in original order, pandas index == frame.index[kept], caller's set "
     "(as ints) == caller set U nulls; raise: error iff some evaluated factor has a null; ignore: all rows kept, numeric "
@@ -73,7 +73,7 @@ def check_case(case) -> Outcome:
         df.index = pd.date_range("2024-03-30 22:00", periods=fr["n"], freq="h", tz="Europe/Berlin", name="when")
     s = F.formula_string(fc)
     caller = None if case["drop"] is None else {p % n for p in case["drop"]}
-    two = entry in ("twosided", "specs-overrides")
+    two = entry in ("twosided", "specs-overrides", "specs-mixed")
     ycol = "z"
     nul = null_rows(fc, fr, extra_cols=[ycol] if two else [])
     feat = dict(na=na, entry=entry, output=output, index=case["index_kind"] if (fr.get("index") is not None or case.get("index_kind") == "tz") else "default")
@@ -100,6 +100,14 @@ def check_case(case) -> Outcome:
         if entry == "specs-overrides":
             # a structured set of specs, options given as overrides
             return ModelSpec.from_spec(Formula(f"{ycol} ~ {s}")).get_model_matrix(df, drop_rows=passed, context=cx, **opts)
+        if entry == "specs-mixed":
+            # a hand-assembled structured spec: one part comes from an earlier build (it remembers its materializer),
+            # the other part is fresh - still one joint build, one pooled set of missing rows
+            from formulaic.model_spec import ModelSpecs
+
+            earlier = Formula(f"0 + {ycol}").get_model_matrix(df, context=cx, **opts).model_spec
+            specs = ModelSpecs(lhs=earlier, rhs=ModelSpec.from_spec(Formula(s), **opts))
+            return specs.get_model_matrix(df, drop_rows=passed, context=cx)
         if entry == "materializer-reused":
             # one materializer instance serving an earlier call (other formula, other dropped rows) and then this one
             from formulaic.materializers import PandasMaterializer
@@ -191,7 +199,7 @@ def gen(max_rows=10):
             "drop": draw(st.one_of(st.none(), st.lists(st.integers(0, 30), max_size=4), st.lists(st.integers(0, 19), min_size=2, max_size=6),
                                      # sets of small ints that do not iterate in sorted order
                                      st.sampled_from([[1, 3, 10], [0, 2, 9, 11], [2, 12, 4], [5, 8, 6], [3, 17, 4, 9]]))),
-            "entry": draw(st.sampled_from(["model_matrix", "formula", "spec", "spec-overrides", "twosided", "specs-overrides", "materializer-reused"])),
+            "entry": draw(st.sampled_from(["model_matrix", "formula", "spec", "spec-overrides", "twosided", "specs-overrides", "materializer-reused", "specs-mixed"])),
             "output": draw(st.sampled_from(["pandas", "pandas", "numpy", "sparse"])),
             "efr": draw(st.booleans()),
         }
